@@ -425,14 +425,14 @@ def plan(tier):
     if tier == "quick":
         return [
             ("full", ["fresh:2x2"], 2, True, None),
-            ("reduced", ["fresh:1x1", "fresh:2x3", "fresh:3x2", "fixture:issue-77.numbers"], 2, True, None),
+            ("reduced", ["fresh:1x1", "fresh:2x3", "fresh:3x2", "fixture:test-1.numbers"], 2, True, None),
             ("reduced", ["two:2x2"], 2, True, None),
             ("reduced", ["fresh:2x2"], 3, False, None),
             ("reduced", ["tile:256x2", "tile:257x2"], 1, True, None),
         ]
     return [
         ("full", ["fresh:2x2", "fresh:1x1", "fresh:2x3", "fresh:3x2"], 2, True, None),
-        ("full", ["fixture:issue-77.numbers", "fixture:test-save-1.numbers", "fixture:issue-3.numbers"], 2, True, None),
+        ("full", ["fixture:test-1.numbers", "fixture:test-save-1.numbers", "fixture:issue-3.numbers"], 2, True, None),
         ("full", ["fresh:2x2"], 3, False, None),
         ("reduced", ["two:2x2"], 3, True, None),
         ("reduced", ["fresh:2x2", "fresh:1x1"], 3, True, None),
@@ -479,6 +479,7 @@ def main():
         "explanation": "every transition is an execution of the real Document/Table API compared with the list-of-lists model after the step; "
                        "traces_validated_against_impl therefore equals transitions",
     }
+    run.assume("loaded initial states are fixtures without merged cells (merged ranges under structural edits are C12's subject; the grid model here has no merges)")
     run.assume("histories longer than the depth bound, more than 3 tables per document and values outside the 6-value alphabet are not explored")
     return run.finish(cov)
 
